@@ -253,6 +253,8 @@ def run(module: str, obname: str, part_idx: int, tier: str, known_ids: List[str]
     part = ob.partitions(tier)[part_idx]
     result["part"] = part
     result["kind"] = "crosshair"
+    if ob.prepare is not None:
+        ob.prepare(tier, part)
     _install_solver_counter()
     if getattr(mod, "OPAQUE_NUMBER_FORMAT", False):
         _install_opaque_number_format()
